@@ -307,7 +307,8 @@ def run(tier, seed):
              "from (a) every maximal path TLC enumerates in MC_WildcardObj (generator cfg) embedded through address "
              "windows, (b) every limit 0..30 with k = limit-1, limit, limit+1 non-contiguous bits, (c) seeded random "
              "32-bit histories, (d) fprefix/fsubnet constructors; non-trivial = a query follows a reassignment, or an "
-             "Address view; distinct = distinct step lists",
+             "Address view; the same histories also on Address / AddressAg objects and on a member of a group address built "
+             "from text (held to the group address's limit); distinct = distinct step lists",
         samples=[dict(job=alljobs[i], events=ev_lists[i]) for i in (0, len(jobs) - 1, len(alljobs) - 1)],
         model_checking=mcs, generation=gen, trace_validation=vstats,
         exhaustive=False,
